@@ -438,6 +438,14 @@ impl Drop for Sentinel {
                     }
                     w.sh.seq += 1;
                     let t = w.sh.seq;
+                    // later lookups in the same op already see the old generation's contexts as stale
+                    for &x in &post {
+                        for ty in 0..3 {
+                            if let Some((_, stale)) = &mut w.sh.owners[x].ctx[ty] {
+                                *stale = true;
+                            }
+                        }
+                    }
                     w.ended.push((if is_task { None } else { Some(e) }, o, post, t, dropped));
                     if dropped {
                         w.sh.owners[o].gone = true;
